@@ -168,12 +168,18 @@ def force_max(s):
 class C01(Property):
     id = "C01"
     title = "flatten() output rebuilds the same element tree through from_flat()"
-    proof_module = "Proofs.C01Examples"
-    level_text = 'Lean 4 theorems `roundtrip_pruned` and `roundtrip`: for every well-formed schema without SparseDicts, every SepSafe separator and every conforming settled element state, from_flat(flatten(e)) rebuilds exactly the documented pruning `pr e` of e (pruning Lists keep the members that still emit a non-empty value, renumbered; non-pruning Lists lose trailing members without a flat representation; Arrays drop empty members when pruning applies), and e itself when no pruning applies — any depth/width/nesting, through the real breadth-first order, the sloppy startswith of Mapping._set_flat and the List index recogniser. Model tied to /repo by differential correspondence on states extracted from real elements; SparseDicts and native leaf values are decided by an independent Python oracle on every case.'
+    proof_module = "Proofs.C01SecondExamples"
+    level_text = 'Lean 4 theorems `roundtrip_pruned` and `roundtrip`: for every well-formed schema without SparseDicts, every SepSafe separator and every conforming settled element state, from_flat(flatten(e)) rebuilds exactly the documented pruning `pr e` of e (pruning Lists keep the members that still emit a non-empty value, renumbered; non-pruning Lists lose trailing members without a flat representation; Arrays drop empty members when pruning applies), and e itself when no pruning applies; `roundtrip_second_flatten`: a second round trip leaves the flat output unchanged (although the tree may still change: [[a],['']] -> [[a],[]] -> [[a]]); `roundtrip_flatten_noprune`: without pruning sequences the flat output is identical; `roundtrip_flatten_sub`: in general pairs are only left out, all with empty values, keys change in list indexes only — any depth/width/nesting, through the real breadth-first order, the sloppy startswith of Mapping._set_flat and the List index recogniser. Model tied to /repo by differential correspondence on states extracted from real elements; SparseDicts and native leaf values are decided by an independent Python oracle on every case.'
     level_note = "Trusted: Lean kernel + propext/Classical.choice/Quot.sound; hand-written model Flatland/Flat.lean (tied by correspondence, 2.5k/80k cases per run); scalar set(text) and compound texts enter as tables computed from the real classes in isolation (C04/C18); SepSafe is stronger than 'separator not in names' (KF-C01-a); theorems exclude SparseDicts (oracle only; negation witness roundtrip_sparse_fails)."
     technique = 'Lean 4 proof (structural induction + level-order lemma + confinement) over a hand-written model; differential correspondence; Python oracle'
     theorems = [
         "Flatland.Flat.Proofs.roundtrip_pruned",
+        "Flatland.Flat.Proofs.roundtrip_second_flatten",
+        "Flatland.Flat.Proofs.roundtrip_flatten_noprune",
+        "Flatland.Flat.Proofs.roundtrip_flatten_sub",
+        "Flatland.Flat.Proofs.roundtrip_values_nonempty",
+        "Flatland.Flat.Proofs.flatten_pr_pr",
+        "Flatland.Flat.Proofs.okP_pr",
         "Flatland.Flat.Proofs.rtp_all",
         "Flatland.Flat.Proofs.rtp_list",
         "Flatland.Flat.Proofs.roundtrip",
